@@ -29,4 +29,17 @@ void xfree(void *ptr);
 
 void GetNProcessor(size_t *nprocs_online, size_t *nprocs_max);
 
+#ifdef LIBSCIENTIFIC_VERIF
+/* verification hooks (compiled only with -DLIBSCIENTIFIC_VERIF): processor-count override and
+ * NIPALS loop observation callbacks; all are inert unless a harness installs them. */
+extern size_t lsci_verif_nproc;
+extern void (*lsci_verif_loop_head_cb)(int site, void *a, void *b, void *c);
+extern void (*lsci_verif_pre_conv_cb)(int site, void *t_new, void *t_old);
+#define LSCI_VERIF_LOOP_HEAD(site, a, b, c) do{ if(lsci_verif_loop_head_cb != NULL) lsci_verif_loop_head_cb((site), (a), (b), (c)); }while(0)
+#define LSCI_VERIF_PRE_CONV(site, a, b) do{ if(lsci_verif_pre_conv_cb != NULL) lsci_verif_pre_conv_cb((site), (a), (b)); }while(0)
+#else
+#define LSCI_VERIF_LOOP_HEAD(site, a, b, c) ((void)0)
+#define LSCI_VERIF_PRE_CONV(site, a, b) ((void)0)
+#endif
+
 #endif
